@@ -449,6 +449,49 @@ def check_sweeps(ctx, cirq, cg, n):
                 ctx.count('sweep_rejected', 'rc:' + str(e)[:40])
 
 
+def check_unit_sweeps(ctx, cirq, cg, n):
+    """sweeps whose values carry units (tunits): the round trip denotes the same physical values, also when the end points of
+    a Linspace or the points of a Points sweep are given in different (compatible) units"""
+    try:
+        import tunits
+    except ImportError:
+        ctx.count('unit_sweeps', 'tunits-missing')
+        return
+    from cirq_google.api import v2
+
+    rng = ctx.substream('unit-sweeps')
+    fams = {'time': [tunits.units.ns, tunits.units.us, tunits.units.ms], 'freq': [tunits.units.MHz, tunits.units.GHz]}
+    for _ in range(n):
+        fam = rng.choice(list(fams))
+        units, base = fams[fam], fams[fam][0]
+        u = lambda: rng.choice(units)
+        if rng.random() < 0.5:
+            s = cirq.Linspace('t', rng.choice([0, 1, 2.5]) * u(), rng.choice([1, 3, 10]) * u(), rng.choice([1, 2, 3, 5]))
+        else:
+            s = cirq.Points('t', [rng.choice([0.5, 1, 2, 3]) * u() for _ in range(rng.randint(1, 4))])
+        if rng.random() < 0.3:
+            s = cirq.Zip(s, cirq.Points('b', list(range(len(s)))))
+        for f64 in (False, True):
+            rep = {'lines': [{'sweep': repr(s), 'use_float64': f64}], 'theorem_or_correspondence': 'sweep round trip (assignments)'}
+            try:
+                back = v2.sweep_from_proto(v2.sweep_to_proto(s, use_float64=f64))
+            except (ValueError, TypeError) as e:
+                ctx.count('sweep_rejected', 'units:' + str(e)[:40])
+                continue
+            ctx.count('check', 'sweep-roundtrip:units')
+            ctx.case(['unit-sweep', repr(s), f64], len(s) >= 2)
+            val = lambda v: float(v[base]) if hasattr(v, '__getitem__') else float(v)
+            want = [sorted((str(k), val(v)) for k, v in r.param_dict.items()) for r in s]
+            try:
+                got = [sorted((str(k), val(v)) for k, v in r.param_dict.items()) for r in back]
+            except Exception as e:
+                got = f'{type(e).__name__}: {e}'[:100]
+            tol = 1e-9 if f64 else 2e-6
+            same = isinstance(got, list) and len(got) == len(want) and all(len(a) == len(b) and all(ka == kb and abs(va - vb) <= tol * max(1, abs(va)) for (ka, va), (kb, vb) in zip(a, b)) for a, b in zip(want, got))
+            if not same:
+                ctx.report_witness('sweep:roundtrip:units', 'a sweep over values with units does not round-trip to the same physical values', dict(rep, impl_out=[repr(got)[:500]], spec_out=[repr(want)[:500]]))
+
+
 # ------------------------------------------------------------------------------ devices
 def check_devices(ctx, cirq, cg, n):
     rng = ctx.substream('devices')
@@ -474,6 +517,31 @@ def check_devices(ctx, cirq, cg, n):
         rep = {'lines': [{'pairs': [repr(p) for p in pairs], 'gateset': repr(gateset)}], 'theorem_or_correspondence': 'device spec round trip'}
         if dev2.metadata.qubit_set != dev.metadata.qubit_set or dev2.metadata.qubit_pairs != dev.metadata.qubit_pairs:
             ctx.report_witness('device:roundtrip:qubits', 'GridDevice.from_proto(d.to_proto()) has different qubits or pairs', dict(rep, impl_out=[repr(dev2.metadata.qubit_pairs)[:500]], spec_out=[repr(dev.metadata.qubit_pairs)[:500]]))
+        # a specification may list further target sets that are not couplings (e.g. readout groups of two qubits): they add no pair
+        from cirq_google.api import v2 as _v2
+        loose = [(a, b) for a in sorted({q for p in pairs for q in p}) for b in sorted({q for p in pairs for q in p}) if a < b and frozenset((a, b)) not in {frozenset(p) for p in pairs}]
+        if loose:
+            a_, b_ = rng.choice(loose)
+            spec2 = _v2.device_pb2.DeviceSpecification()
+            spec2.CopyFrom(spec)
+            ts = spec2.valid_targets.add()
+            ts.name = 'readout_groups'
+            ts.target_ordering = _v2.device_pb2.TargetSet.SUBSET_PERMUTATION
+            ts.targets.add().ids.extend([_v2.qubit_to_proto_id(a_), _v2.qubit_to_proto_id(b_)])
+            try:
+                dev3 = cg.GridDevice.from_proto(spec2)
+                ctx.count('check', 'device-extra-target-set')
+                bogus = dev3.metadata.qubit_pairs - dev.metadata.qubit_pairs
+                try:
+                    dev3.validate_operation(cirq.CZ(a_, b_))
+                    accepted = cirq.CZ(a_, b_) in dev3.metadata.gateset
+                except ValueError:
+                    accepted = False
+                if bogus or accepted:
+                    ctx.report_witness('device:spec:non-coupling-target', 'a two-qubit target of a non-symmetric target set of the specification (e.g. a readout group) is treated as a coupled pair',
+                                       dict(rep, impl_out=[repr(sorted(map(sorted, bogus)))[:300], accepted], spec_out=['no additional pair', False]))
+            except (ValueError, KeyError) as e:
+                ctx.count('device_rejected', 'extra-target:' + str(e)[:40])
         # validate decisions agree between the device and its round-tripped copy, and with the specification read directly
         valid_q = {q for p in pairs for q in p}
         valid_pairs = {frozenset(p) for p in pairs}
@@ -533,6 +601,7 @@ def run(ctx: common.Run):
     check_results(ctx, cirq, cg, n)
     check_programs(ctx, cirq, cg, sympy, n * 2)
     check_sweeps(ctx, cirq, cg, n * 2)
+    check_unit_sweeps(ctx, cirq, cg, max(20, n // 2))
     check_devices(ctx, cirq, cg, max(10, n // 3))
 
 
